@@ -85,6 +85,9 @@ def main(prop, tier, seed, replay_file):
     if replay_file:
         with open(replay_file) as f:
             rp = json.load(f)
+        if rp["family"] == "parts":
+            from . import check_calls
+            check_calls.replay(rp)
         name = rp["family"][len("group["):-1]
         cfg = [c for c in groupfam.CONFIGS if c["name"] == name][0]
         tr = groupfam.execute(cfg, [r.get("was", r["e"]) for r in rp["trace"]["steps"]])
@@ -102,5 +105,8 @@ def main(prop, tier, seed, replay_file):
             "a member is not restarted after stop (the coordinator object drops its protocol on stop)",
         ]
         run_group(chk, prop, tier, seed)
+        if prop == "C17":
+            from . import check_calls
+            check_calls.parts_lookup(chk, tier, seed)
 
     run_check(prop, tier, seed, body)
